@@ -20,6 +20,16 @@ HISTORIES = [
     (0, "all", "set a 1; set a 2; del a; set b 1; merge; set b 2; reopen; set c 3"),
     (1 << 20, "all", "set a 1; set b 2; del a; reopen; set a 3; merge; del b"),
 ]
+# a value larger than the BufWriter's capacity reaches the file in more than one write call: a kill between them cuts the entry
+HISTORIES.append((1 << 20, "all", "set a 1; set big %s; set b 2; del a; set big2 %s" % ("x" * 9000, "y" * 20000)))
+# histories whose LAST operation appends the last entry of the highest data file: that file is then cut by a few bytes, which is what
+# a kill (or power loss) in the middle of the last write leaves; the last operation counts as in flight
+TRUNCATIONS = [
+    (1 << 20, "all", "set a 1; set b 2; del a; set c 33333"),
+    (1 << 20, "all", "set a 1; set b 2; set a 3; del b"),
+    (64, "all", "set a 1; set b 2; set c 3; set a 4; set d 55555555"),
+]
+CUTS = (1, 2, 5, 9, 10, 17)      # every last entry above is at least 18 bytes long
 CALLS = "openat,write,pwrite64,fsync,fdatasync,unlink,unlinkat"
 _LINE = re.compile(r"^(\d+)\s+(\w+)\((.*)$")
 
@@ -105,5 +115,35 @@ def search(binary, limit=None):
                             "history": ops, "observed": "the verifying process exited with %d: %s" % (v.returncode, v.stderr[-400:]), "expected": "the directory opens"}
             finally:
                 shutil.rmtree(d, ignore_errors=True)
+    # torn last entry
+    for max_size, mode, ops in TRUNCATIONS:
+        nops = len(ops.split(";"))
+        for cut in CUTS:
+            d = tempfile.mkdtemp(prefix="verif-crash-")
+            try:
+                subprocess.run([binary, "store-crash-run", d, str(max_size), mode, ops], stdout=subprocess.PIPE, stderr=subprocess.PIPE, text=True, timeout=120)
+                data = sorted((int(f.split(".")[0]), f) for f in os.listdir(d) if f.endswith(".bitcask.data") and os.path.getsize(os.path.join(d, f)) > 0)
+                if not data:
+                    continue
+                last = os.path.join(d, data[-1][1])
+                size = os.path.getsize(last)
+                if size <= cut:
+                    continue
+                os.truncate(last, size - cut)
+                evaluations += 1
+                v = subprocess.run([binary, "store-crash-verify", d, str(max_size), mode, ops, str(nops - 1), "in the middle of the last write (%s cut by %d bytes)" % (data[-1][1], cut)],
+                                   stdout=subprocess.PIPE, stderr=subprocess.PIPE, text=True, timeout=120)
+                for line in v.stdout.splitlines():
+                    if line.startswith("{") and json.loads(line).get("found"):
+                        w = json.loads(line)
+                        w["scenario"] = "crash"
+                        w["crash_point"] = "last entry cut by %d bytes" % cut
+                        w["config"] = "max_file_size=%d merge=%s" % (max_size, mode)
+                        return w
+                if v.returncode != 0:
+                    return {"found": True, "scenario": "crash", "kind": "crash-verify-died", "props": "C03", "crash_point": "last entry cut by %d bytes" % cut,
+                            "history": ops, "observed": "the verifying process exited with %d: %s" % (v.returncode, v.stderr[-400:]), "expected": "the directory opens"}
+            finally:
+                shutil.rmtree(d, ignore_errors=True)
     return {"found": False, "evaluations": evaluations,
-            "searched": "%d kill points (every openat/write/fsync/unlink on a store file) over %d histories with rollovers, merges and reopens; after each kill the directory was reopened and compared with the map model, further operations were acknowledged, and a second restart was compared again" % (evaluations, len(HISTORIES))}
+            "searched": "%d kill points (every openat/write/fsync/unlink on a store file, plus the last entry cut by 1..17 bytes) over %d histories with rollovers, merges, reopens and values larger than the write buffer; after each kill the directory was reopened and compared with the map model, further operations were acknowledged, and a second restart was compared again" % (evaluations, len(HISTORIES))}
